@@ -85,11 +85,19 @@ def write_and_check(fills, version, code, dest, res, tag, code_fits=True):
             open(other, 'wb').write(rc.png_encode_rgba(160, 205, label))
             kw = {'label_fname': other}
         case['label_arg'] = how
+        # what the tool logs may not change what it writes: verbosity rotates over the cases (messages go nowhere)
+        from pico8 import util
+        verb = (util.VERBOSITY_QUIET, util.VERBOSITY_DEBUG, util.VERBOSITY_NORMAL, util.VERBOSITY_QUIET)[(len(src) + version + (dest or 0) * 3) % 4]
+        case['verbosity'] = verb
+        old_verb = util._verbosity
+        util.set_verbosity(verb)
         try:
             p8file.to_file(g, path, **kw)
             raised = None
         except Exception as e:
             raised = e
+        finally:
+            util.set_verbosity(old_verb)
         after = open(path, 'rb').read() if os.path.exists(path) else None
         tcls = tag[0]
         if code_fits is None:
